@@ -7,7 +7,7 @@ import (
 	"verif/engine/interp"
 )
 
-var subLabelSuffixRe = regexp.MustCompile(`^_[0-9]+$`)
+var subLabelSuffixRe = regexp.MustCompile(`^_-?[0-9]+$`)
 
 // isSubLabelOf reports whether name is <script>_<digits> (structurally).
 func isSubLabelOf(name, script interp.Value) bool {
